@@ -12,6 +12,7 @@ package main
 //   lo     127.0.0.1/8   (application scans)
 
 import (
+	"os/signal"
 	"io"
 	"bytes"
 	"encoding/binary"
@@ -418,7 +419,27 @@ func runSXOpt(o sxOpt, stdin []byte, timeout time.Duration, args ...string) sxRu
 	return p.wait(timeout)
 }
 
+// childSigintDefault: a check started as a background job of a non-interactive shell (`./check … &`, nohup, a CI
+// runner) inherits SIGINT as IGNORED, and so would every sx process started from here: Go leaves an inherited
+// SIG_IGN alone until the program calls signal.Notify, so a SIGINT that reaches sx (or the taskset / sh that execs
+// it) before `signal.NotifyContext` would be dropped silently and the scan would run on — an artefact of how the
+// harness was started, not a behaviour of sx.  exec resets HANDLED signals to their default action, ignored ones stay
+// ignored: with a handler installed here every child starts with SIGINT at its default, as under a terminal.
+var sigintOnce sync.Once
+
+func childSigintDefault() {
+	sigintOnce.Do(func() {
+		c := make(chan os.Signal, 1)
+		signal.Notify(c, syscall.SIGINT)
+		go func() {
+			<-c
+			os.Exit(130)
+		}()
+	})
+}
+
 func startSXOpt(o sxOpt, oneCPU bool, stdin []byte, args ...string) (*sxProc, error) {
+	childSigintDefault()
 	bin := os.Getenv("SX_BIN")
 	if rb := os.Getenv("SX_BIN_RACE"); (o.race || sxRaceRuns) && rb != "" {
 		bin = rb
